@@ -43,12 +43,20 @@ Definition model_str (c : case) : option text :=
   | None => None
   end.
 
+(* The property speaks about the strings the implementation ACCEPTS.  So: what the implementation accepts must be what
+   the model says it is; a string the implementation rejects although the model would accept it is not compared (a
+   narrower accepted set keeps the property).  The re-parse of the implementation's own text form is compared strictly. *)
+Definition accept_compat (m impl : option uri) : bool :=
+  match impl with
+  | None => true
+  | Some y => match m with Some x => uri_eqb x y | None => false end
+  end.
+
 Definition check_case (c : case) : bool :=
   let m := parse T (c_ns c) (c_s c) in
-  opt_uri_eqb m (c_parse c) &&
-  match m with
-  | None => true
-  | Some u =>
+  accept_compat m (c_parse c) &&
+  match c_parse c, m with
+  | Some _, Some u =>
     let u' := reorder u (c_order c) in
     let st := print (c_q c) u' in
     Nat.eqb (ntags u) (ntags u') &&
@@ -57,10 +65,14 @@ Definition check_case (c : case) : bool :=
      opt_uri_eqb m2 (c_reparse c) &&
      match m2 with Some u2 => Bool.eqb (uri_eqb_on EF u2 u) (c_eq12 c) | None => true end) &&
     Bool.eqb (match hash_key_on (c_q c) (fun _ => 0%N) HF u with Some _ => true | None => false end) (c_hash_ok c)
+  | _, _ => true
   end &&
   (let mv := parse T (c_ns c) (c_s2 c) in
-   opt_uri_eqb mv (c_parse2 c) &&
-   match m, mv with Some u, Some v => Bool.eqb (uri_eqb_on EF u v) (c_eq_v c) | _, _ => true end).
+   accept_compat mv (c_parse2 c) &&
+   match c_parse c, c_parse2 c, m, mv with
+   | Some _, Some _, Some u, Some v => Bool.eqb (uri_eqb_on EF u v) (c_eq_v c)
+   | _, _, _, _ => true
+   end).
 
 (* diagnostics: what the model computes for a case *)
 Definition model_out (c : case) :=
